@@ -2,5 +2,6 @@ SPECIFICATION Spec
 CONSTANTS
   GB = 148
   Pairs = TRUE
+  Triples = FALSE
 POSTCONDITION Post
 CHECK_DEADLOCK FALSE
